@@ -105,6 +105,16 @@ class Module:
             if res is not out and not hasattr(res, "_vt_qual"):
                 res._vt_qual = qual          # type: ignore[attr-defined]
                 res._vt_origin = fs[index]   # type: ignore[attr-defined]
+            # a loop over a local comprehension is that comprehension's loop nest
+            comp_locals = {t.id for a in ast.walk(res) if isinstance(a, ast.Assign) and isinstance(a.value, (ast.GeneratorExp, ast.ListComp)) for t in a.targets if isinstance(t, ast.Name)}
+            if comp_locals and any(isinstance(f_, ast.For) and isinstance(f_.iter, ast.Name) and f_.iter.id in comp_locals for f_ in ast.walk(res)):
+                import copy as _copy
+                from .expand import fuse_comprehension_loops
+                cp = _copy.deepcopy(res)
+                if fuse_comprehension_loops(cp):
+                    cp._vt_qual = qual           # type: ignore[attr-defined]
+                    cp._vt_origin = fs[index]    # type: ignore[attr-defined]
+                    res = cp
             self._expander.cache[key] = res
         return self._expander.cache[key]  # type: ignore
 
